@@ -361,6 +361,14 @@ def main_check(pid, tier, seed, replay=None):
         if not unexplained:
             continue
         case, detail = unexplained[0]
+        if do_shrink and hasattr(prop, "focus"):
+            try:
+                for cand in prop.focus(case, b):
+                    if fails_with(prop, cand, b):
+                        case = cand
+                        break
+            except Exception:
+                pass
         if do_shrink:
             from . import jsonmin
             small = jsonmin.minimise(case, lambda c: fails_with(prop, c, b),
